@@ -16,19 +16,34 @@ def is_genbank(f, **kw):
 is_fts_genbank = is_genbank
 
 
+def _split_toplevel(s: str):
+    # split at commas which are not nested inside parentheses
+    parts = []
+    depth = 0
+    part = ''
+    for ch in s:
+        if ch == '(':
+            depth += 1
+        elif ch == ')':
+            depth -= 1
+        if ch == ',' and depth == 0:
+            parts.append(part)
+            part = ''
+        else:
+            part = part + ch
+    parts.append(part)
+    return parts
+
+
 def _parse_locs(loc: str):
     # See https://www.insdc.org/submitting-standards/feature-table/#3.4
-    locs = []
+    loc = loc.strip()
     if loc.startswith(('join', 'order', 'complement')):
-        from warnings import warn
-        warn('Parsing of genbank loc join, order, complement is untested')
-        # TODO: add some tests
-        locs = [_parse_locs(subloc.strip())
-                for subloc in
-                loc[loc.index('(')+1:loc.rindex(')')].split(',')]
+        inner = loc[loc.index('(')+1:loc.rindex(')')]
+        locs = [l for subloc in _split_toplevel(inner) for l in _parse_locs(subloc)]
         if loc.startswith('complement'):
-            for loc in locs:
-                loc.strand = {'-': '+', '+': '-'}.get(loc.strand, loc.strand)
+            for l in locs:
+                l.strand = {'-': '+', '+': '-'}.get(l.strand, l.strand)
     else:
         locs = [_parse_single_loc(loc)]
     return locs
